@@ -21,8 +21,9 @@ VERIF = Path(__file__).resolve().parent.parent
 LEAN = VERIF / 'lean'
 REPO = Path(os.environ.get('VERIF_REPO', '/repo'))
 DRIVER = Path(os.environ.get('VERIF_DRIVER') or (LEAN / '.lake' / 'build' / 'bin' / 'dwdriver'))
-EVIDENCE = VERIF / 'evidence'
-REPLAYS = VERIF / 'replays'
+_OUT = Path(os.environ.get('VERIF_OUT') or VERIF)      # development only: evidence / replays of experiments go elsewhere
+EVIDENCE = _OUT / 'evidence'
+REPLAYS = _OUT / 'replays'
 KNOWN_FINDINGS = VERIF / 'KNOWN_FINDINGS.jsonl'
 GUARD = 'DATACLASS_WIZARD_VERIF'
 
@@ -316,14 +317,14 @@ def load_known_findings(prop_id):
 
 
 def write_replay(prop_id, seed, n, obj):
-    REPLAYS.mkdir(exist_ok=True)
+    REPLAYS.mkdir(parents=True, exist_ok=True)
     p = REPLAYS / f'{prop_id}-{seed}-{n}.json'
     p.write_text(json.dumps(obj, indent=1, ensure_ascii=False, default=repr))
     return p
 
 
 def write_evidence(prop_id, tier, seed, coverage, assumptions, wall, violations):
-    EVIDENCE.mkdir(exist_ok=True)
+    EVIDENCE.mkdir(parents=True, exist_ok=True)
     ev = dict(property_id=prop_id, tier=tier, seed=seed, level='proof', coverage=coverage,
               assumptions=assumptions, wall_s=round(wall, 2), violations=violations)
     (EVIDENCE / f'{prop_id}.json').write_text(json.dumps(ev, indent=1, ensure_ascii=False, default=repr))
